@@ -19,7 +19,8 @@ for d in seeded/*/; do
     continue
   fi
   prop=$(python3 -c "import json,re;m=json.load(open('$d/meta.json'));print(re.match(r'(C\d+)', m['detected_by']).group(1))")
-  r=$(tools/trymutant.sh "$PWD/$d/patch.diff" "$prop" 2>&1 | grep "^RESULT" | head -1)
+  senv=$(python3 -c "import json;print(json.load(open('$d/meta.json')).get('sweep_env',''))")
+  r=$(env $senv tools/trymutant.sh "$PWD/$d/patch.diff" "$prop" 2>&1 | grep "^RESULT" | head -1)
   case "$r" in
     *"exit=1"*VIOLATION*) echo "SWEEP $id caught-by $prop" ;;
     *) echo "SWEEP $id NOT-CAUGHT by $prop :: $r" ;;
